@@ -277,8 +277,23 @@ class TextToWml(Position):
         return [("wap", b"/w/doc.txt")]
 
 
+class ScriptOutputInWml(Position):
+    """What a script prints (here: the search string it was given) is text like any other file's when WAP turns it into
+    a deck, whoever hands the bytes to whom on the way."""
+    name = "script-output-converted-to-wml"
+    full = True
+    query_is_payload = True
+
+    def build(self, t, p):
+        t.file("s/echo.sh", b"#!/bin/sh\nprintf 'you asked for: %s\\n' \"$SEARCHREQUEST\"\nprintf 'line two\\n'\n", mode=0o755)
+
+    def requests(self, p):
+        return [("wap", b"/s/echo.sh"), ("http", b"/s/echo.sh"), ("wapauto", b"/s/echo.sh")]
+
+
 class SearchString(Position):
     name = "search-string"
+    query_is_payload = True
 
     def requests(self, p):
         return [(v, b"/nonexistent-search") for v in ("http", "wap")]
@@ -320,7 +335,7 @@ def run_position(chk: Check, sc: Scratch, pos: Position, payloads: typing.List[s
                     out.append((view, sel, req, site.request(req, tls="mock" if tls else False)))
             else:
                 for view, sel in pos.requests(p):
-                    q = p.encode("utf-8", "surrogateescape") if isinstance(pos, SearchString) else None
+                    q = p.encode("utf-8", "surrogateescape") if getattr(pos, "query_is_payload", False) else None
                     req, r = fetch(site, view, sel, q)
                     out.append((view, sel, req, r))
         finally:
@@ -463,7 +478,7 @@ def main() -> int:
     quick = chk.tier == "quick"
     with Scratch("c13") as sc:
         positions: typing.List[Position] = [ErrorPageSelector(), FileName(), DirName(), HtmlTitle(), MailSubject(sc.path),
-                                            Abstract(), GophermapDesc(), LinkFile(), UrlRedirect(), TextToWml(), SearchString(),
+                                            Abstract(), GophermapDesc(), LinkFile(), UrlRedirect(), TextToWml(), SearchString(), ScriptOutputInWml(),
                                             RequestHeaders()]
         rng = chk.rng
         for i, pos in enumerate(positions):
